@@ -316,7 +316,9 @@ def run_seq(kind, ops, quirks=None, model=None):
         for h in ref.hits:
             res["hits"].append((i, h))
         if a != b:
-            res["fail"] = {"step": i, "what": "%s %s: implementation %s, reference dictionary %s" % (kind.name, op[0], short(a), short(b)),
+            what = ("%s %s: return value differs from the reference dictionary" % (kind.name, op[0]) if a[0] == b[0] == "ok" else
+                    "%s %s: implementation %s, reference dictionary %s" % (kind.name, op[0], short(a), short(b)))
+            res["fail"] = {"step": i, "what": what,
                            "observed": a, "expected": b}
             return res
         items, keys = real_state(o)
